@@ -40,60 +40,78 @@ func hsSpend() {
 	}
 }
 
-// hsWire is nodeWire with a depth guard; ok=false when the document is not finite (cyclic).
-func hsWire(n dom.Node, depth int, ok *bool) W {
+// hsOnPath is the set of container / list objects on the current walk from the root: meeting one of them
+// again is a cycle (a node stored below itself).
+type hsOnPath map[uintptr]bool
+
+// hsWire is nodeWire with cycle detection; ok=false when the document is not finite (cyclic).
+func hsWire(n dom.Node, depth int, ok *bool) W { return hsWireP(n, depth, ok, hsOnPath{}) }
+
+func hsWireP(n dom.Node, depth int, ok *bool, on hsOnPath) W {
 	if n == nil {
 		return nil
 	}
 	hsSpend()
-	if depth > hsMaxDepth {
-		*ok = false
-		return "<<deeper than 64 levels: cyclic>>"
+	if n.IsLeaf() {
+		return scalarWire(n.(dom.Leaf).Value())
 	}
-	switch {
-	case n.IsContainer():
+	id := nodeID(n)
+	if on[id] || depth > hsMaxDepth {
+		*ok = false
+		return "<<cyclic: this node is stored below itself>>"
+	}
+	on[id] = true
+	defer delete(on, id)
+	if n.IsContainer() {
 		m := map[string]any{}
 		for k, e := range n.(dom.Container).Children() {
-			m[k] = hsWire(e, depth+1, ok)
+			m[k] = hsWireP(e, depth+1, ok, on)
 		}
 		return map[string]any{"m": m}
-	case n.IsList():
-		items := n.(dom.List).Items()
-		l := make([]any, len(items))
-		for i, e := range items {
-			l[i] = hsWire(e, depth+1, ok)
-		}
-		return l
 	}
-	return scalarWire(n.(dom.Leaf).Value())
+	items := n.(dom.List).Items()
+	l := make([]any, len(items))
+	for i, e := range items {
+		l[i] = hsWireP(e, depth+1, ok, on)
+	}
+	return l
 }
 
-// hsTree is sharer.tree with a depth guard.
-func hsTree(s *sharer, n dom.Node, depth int, ok *bool) any {
+// hsTree is sharer.tree with cycle detection.
+func hsTree(s *sharer, n dom.Node, depth int, ok *bool) any { return hsTreeP(s, n, depth, ok, hsOnPath{}) }
+
+func hsTreeP(s *sharer, n dom.Node, depth int, ok *bool, on hsOnPath) any {
 	hsSpend()
-	if depth > hsMaxDepth {
+	out := map[string]any{"id": s.label(n)}
+	if n.IsLeaf() {
+		return out
+	}
+	id := nodeID(n)
+	if on[id] || depth > hsMaxDepth {
 		*ok = false
 		return "fuel"
 	}
-	out := map[string]any{"id": s.label(n)}
-	switch {
-	case n.IsContainer():
+	on[id] = true
+	defer delete(on, id)
+	if n.IsContainer() {
 		ch := n.(dom.Container).Children()
 		m := map[string]any{}
 		for _, k := range sortedKeys(ch) {
-			m[k] = hsTree(s, ch[k], depth+1, ok)
+			m[k] = hsTreeP(s, ch[k], depth+1, ok, on)
 		}
 		out["m"] = m
-	case n.IsList():
-		items := n.(dom.List).Items()
-		l := make([]any, len(items))
-		for i, it := range items {
-			l[i] = hsTree(s, it, depth+1, ok)
-		}
-		out["i"] = l
+		return out
 	}
+	items := n.(dom.List).Items()
+	l := make([]any, len(items))
+	for i, it := range items {
+		l[i] = hsTreeP(s, it, depth+1, ok, on)
+	}
+	out["i"] = l
 	return out
 }
+
+const hsFinite = "documents-finite(no node stored below itself)"
 
 // hsMut is a mutable node (container / list object) below a register, with the way to it.
 type hsMut struct {
@@ -203,7 +221,7 @@ func (w *hsWorld) finish(op string) {
 		abs[i] = w.wire(n)
 		share[i] = hsTree(sh, n, 0, &w.fin)
 	}
-	if !c.Direct("documents-finite(no node stored below itself)", w.fin, nil) {
+	if !c.Direct(hsFinite, w.fin, nil) {
 		return
 	}
 	args := map[string]any{"heap": w.enc.cells, "regs": []int{}, "steps": orEmpty(w.steps)}
@@ -833,6 +851,10 @@ func heapPatchEval(c *Ctx, raw []byte) {
 				continue
 			}
 			okN++
+			w.wire(root)
+			if !c.Direct(hsFinite, w.fin, map[string]any{"after": o}) {
+				return
+			}
 			switch o.Op {
 			case "copy":
 				tgt := hsEval(root, o.Path)
@@ -1110,6 +1132,9 @@ func heapPatchOpEval(c *Ctx, raw []byte) {
 					step["vf"] = strsAny(o.ValueFrom)
 				}
 				before := canon(w.wire(root))
+				if !c.Direct(hsFinite, w.fin, map[string]any{"before": o}) {
+					return "", false // PatchOp.Do takes a Snapshot() first: unbounded recursion on a cyclic document
+				}
 				var src dom.Node
 				if o.ValueFrom != nil {
 					src = root.Lookup(*vfStr)
@@ -1124,6 +1149,10 @@ func heapPatchOpEval(c *Ctx, raw []byte) {
 				w.outs = append(w.outs, tag)
 				c.Dist("heap-patchop:" + c09OpName(o.Op) + "=" + tag)
 				if !c.Direct("no-panic", tag != "panic", ptxt) {
+					return tag, false
+				}
+				w.wire(root)
+				if !c.Direct(hsFinite, w.fin, map[string]any{"after": o, "path": pth}) {
 					return tag, false
 				}
 				if tag == "err" {
@@ -1153,6 +1182,13 @@ func heapPatchOpEval(c *Ctx, raw []byte) {
 				parent := o.Runs[0].Path
 				if par := hsEval(root, parent); len(parent) == 0 || par == nil || !par.IsContainer() {
 					continue
+				}
+				if o.ValueFrom != nil && hsHasPrefix(parent, o.ValueFrom) {
+					continue // adding a location's value below that location, repeatedly: kept to single executions
+				}
+				w.wire(root)
+				if !c.Direct(hsFinite, w.fin, map[string]any{"before": o}) {
+					return
 				}
 				po := *base
 				po.Path = c09Pointer(parent) + "/{{ ." + c13ItemVar + " }}"
